@@ -34,6 +34,7 @@ def deco_new(n):
     return w
 encl = 'enclM'
 encl2 = 'encl2M'
+encl3 = 100
 def hookd(f):
     def w(cls, *a, **kw):
         cls.hooked = getattr(cls, 'hooked', 0) + 1
@@ -71,6 +72,9 @@ MEMBERS = {
     "super0-enclosing": ["def who(self):", "    return 'K>' + super().who() + encl"],
     "dunder-class-enclosing": ["def dc(self):", "    return (__class__.__name__, encl, encl2)"],
     # the class body itself (attribute values, a nested class body, a default) reads names of the enclosing scope that no method captures
+    # lambda members (wrapped or not) whose nested lambdas / generator expressions read globals and builtins not used at the first level
+    "nested-lambda-members": ["by_len = staticmethod(lambda seq: sorted(seq, key=lambda t: len(t)))", "grow = classmethod(lambda cls, n: n + (lambda: encl3)())",
+                              "tot = property(lambda self: sum(abs(q) for q in (1, -2)))", "pick = lambda self, seq: max((divmod(x, 2) for x in seq), key=lambda p: p[1])"],
     "body-reads-enclosing": ["be = (encl, encl2)", "class Inner2:", "    bi = encl2 + '!'", "def bd(self, a=encl2):", "    return a"],
 }
 
@@ -121,7 +125,7 @@ def probe(c):
         o = c()
     except Exception as e:
         out.append(('construct', type(e).__name__)); return out
-    for call in ('o.m(1)', 'o.m(1, b=5)', 'c.s(4)', 'o.s(4)', 'c.c(3)', 'o.c(3)', 'o.p', 'o.who()', 'o.v', 'o(1)', 'repr(o)', 'o.md()', 'o.lam()', 'o.lam2()', 'o.me()', 'o.dc()', 'o.bd()', 'c.Inner2.bi', 'c.Inner().im()', 'c.Inner.z', 'c[int].__class__.__name__', "c['k']", 'o.made'):
+    for call in ('o.m(1)', 'o.m(1, b=5)', 'c.s(4)', 'o.s(4)', 'c.c(3)', 'o.c(3)', 'o.p', 'o.who()', 'o.v', 'o(1)', 'repr(o)', 'o.md()', 'o.lam()', 'o.lam2()', 'o.me()', "c.by_len(['bb', 'a'])", 'c.grow(1)', 'o.tot', 'o.pick([3, 4])', 'o.dc()', 'o.bd()', 'c.Inner2.bi', 'c.Inner().im()', 'c.Inner.z', 'c[int].__class__.__name__', "c['k']", 'o.made'):
         try:
             out.append((call, repr(eval(call, {'o': o, 'c': c}))))
         except AttributeError:
@@ -207,7 +211,7 @@ def main(argv):
     kfs = {k["kf"]: k for k in load_known_findings("C12") if k.get("status") == "open"}
     member_sets = [[m] for m in MEMBERS] + [["attrs", "method", "static", "classmethod", "property"], ["init", "method", "super0"],
                    ["nested-class", "body-if", "body-for"], ["init-subclass", "method"], ["super2", "init"], ["dunder-call", "attrs", "class-var-in-method-default"],
-                   ["super0-enclosing", "dunder-class-enclosing", "method"], ["body-reads-enclosing", "attrs"]]
+                   ["super0-enclosing", "dunder-class-enclosing", "method"], ["body-reads-enclosing", "attrs"], ["nested-lambda-members", "attrs"]]
     for _ in range(10 if ck.tier == "quick" else 200):
         member_sets.append(ck.rng.sample(list(MEMBERS), ck.rng.randrange(2, 6)))
     specs = []
